@@ -44,7 +44,7 @@ type stmt struct {
 // defined result value, so values are compared only for fragments ending in an expression statement.)
 func (s stmt) isExpr() bool {
 	switch s.src {
-	case "len(\"abc\")", "len * 2", "[string(nz), string(pz)]", "f()", "g()", "h()", "m.inc()", "import(\"cnt\").inc()", "bm.x", "int(\"7\")", "println(\"p\", a)", "a", "[a, b]", "z := 0; 1 / z", "nosuchname":
+	case "len(\"abc\")", "len * 2", "[string(nz), string(pz)]", "f()", "g()", "h()", "m.inc()", "import(\"cnt\").inc()", "bm.x", "int(\"7\")", "println(\"p\", a)", "a", "[a, b]", "z := 0; 1 / z", "nosuchname", "inc == add":
 		return true
 	}
 	return false
@@ -100,6 +100,10 @@ var alphabet = []stmt{
 	{src: "xs := [1, 2]; q1 := len(xs)", declares: []string{"xs", "q1"}},
 	{src: "len := func(s) { return 42 }", tag: "closure"},
 	{src: "len(\"abc\")"},
+	// two function literals with the same text at the same offset of their fragments are two functions
+	{src: "inc := func(x) { return x + 1 }", declares: []string{"inc"}, tag: "closure"},
+	{src: "add := func(x) { return x + 1 }", declares: []string{"add"}, tag: "closure"},
+	{src: "inc == add"},
 }
 
 func moduleMap() *ugo.ModuleMap {
